@@ -112,6 +112,9 @@ func runC04(c *report.Ctx) {
 	// the sentence the decoders accept and store is the sentence the KDF hashes: no case folding / rewriting in between
 	ruleValidatedTokensAreDecodedTokens(c)
 	ruleEveryIssuedAddressCached(c)
+	ruleStoredEntropyIsRaw(c)
+	ruleReloadedPathFromRowKey(c)
+	ruleMnemonicWordCount(c) // the sentence handed out has as many words as the entropy encodes
 	// ---- (1) seed provenance -----------------------------------------------------------------------------
 	c.Rule("seed-provenance", "hdkeychain.NewMaster is fed only with NewSeed/NewSeedWithErrorChecking(mnemonic, private passphrase); the root key reaches createManagerKeyScope", 5)
 	newMaster := fn(c, pkgHD, "", "NewMaster")
